@@ -145,7 +145,9 @@ def gen_one(rng, tier, magic=False, hidden=False):
     return {'roots': roots, 'rules': rules,
             'ctor': {'nest': rng.random() < 0.6, 'trim': rng.random() < 0.5},
             'calls': calls, 'magic': magic, 'hidden': hidden,
-            'outside': outside}
+            'outside': outside,
+            # the k-th handle built re-enters the populator (see the runner)
+            'reenter': rng.randrange(4) if rng.random() < 0.15 else None}
 
 
 def gen_cases(tier, seed):
@@ -261,9 +263,26 @@ def _run(case, desper, res, tmp):
         RecHandle.__len__ = lambda self: 0
         res.tags['falsy_handles'].add(True)
 
+    reenter = {'left': case.get('reenter')}
+
     def factory_for(index):
         def factory(path, *args, **kwargs):
             res.stats['instantiations'] += 1
+            if reenter['left'] is not None:
+                reenter['left'] -= 1
+                if reenter['left'] < 0:
+                    # a "bundle" resource: its factory indexes another
+                    # directory into a map of its own with the same
+                    # populator and other options, while the outer
+                    # population is still at work (which must not notice)
+                    reenter['left'] = None
+                    res.tags['populator_reentered_from_a_factory'].add(True)
+                    try:
+                        pop(desper.ResourceMap(), root=roots[-1],
+                            nest_on_conflict=not case['ctor']['nest'],
+                            trim_extensions=not case['ctor']['trim'])
+                    except ValueError:
+                        pass    # (a rule names a regular file over there)
             return RecHandle(index, path, args, kwargs)
         return factory
 
